@@ -36,7 +36,7 @@ def candidates_c04():
 
 def env_model(name, grid, cands, mandatory, maxopt, lats, folds, modes, delays=(0,), eplens=(0,), spaces=("box",),
               bads=((0, "ok"),), maxcalls=4, reset_anywhere=True, clock="after_newdate", order="by_time",
-              null="in_space", invariants=(), properties=(), trade=False, tick=1, daylen=DAY, resetlens=(0,)):
+              null="in_space", invariants=(), properties=(), trade=False, tick=1, daylen=DAY, resetlens=(0,), specification=None):
     defs = {
         "Grid": list(grid),
         "Cand": list(cands),
@@ -56,7 +56,7 @@ def env_model(name, grid, cands, mandatory, maxopt, lats, folds, modes, delays=(
     return {
         "name": name,
         "module": tlagen.mc_module("MC", "Env", defs),
-        "cfg": tlagen.cfg(defs, plain, invariants=invariants, properties=properties),
+        "cfg": tlagen.cfg(defs, plain, invariants=invariants, properties=properties, specification=specification),
         "ctx": {"trade": trade, "maxcalls": maxcalls, "tick": tick},
         "invariants": list(invariants), "properties": list(properties),
     }
